@@ -2,7 +2,7 @@
    Statements only; every proof is [exact <lemma>]. *)
 From Coq Require Import String List NArith ZArith.
 From IonV Require Import Base.Wire Data.Ion Num.Float Bin.BinWriter
-  Go.GoTypes Go.Fields Go.Encode Go.Decode Go.MarshalSpec Go.MarshalP.
+  Go.GoTypes Go.Fields Go.Encode Go.Decode Go.MarshalSpec Go.MarshalP Go.DecodeSafeP Go.RoundtripP.
 Import ListNotations.
 Open Scope N_scope.
 
@@ -38,24 +38,51 @@ Theorem C16_sort_keys_sorted : forall (l : list (text * gval)),
   NoDup (map fst l) -> keys_sorted (map fst (sort_keys l)) = true.
 Proof. exact (@sort_keys_sorted gval). Qed.
 
-(* T16.4 — the full-universe statement C16_roundtrip_all_stmt (every well-formed type, every value of
-   it) is FALSE of the faithful model; two independent witnesses *)
-Theorem C16_roundtrip_all_refuted_empty_slice : ~ C16_roundtrip_all_stmt.
-Proof. exact roundtrip_all_refuted_empty_slice. Qed.
-Theorem C16_roundtrip_all_refuted_bigint : ~ C16_roundtrip_all_stmt.
-Proof. exact roundtrip_all_refuted_bigint. Qed.
-(* Marshal panics / never returns on two supported shapes *)
-Theorem C16_decimal_value_panics : forall d, encode true TyDecimal (GDecimal d) TNoType = Panic.
-Proof. exact decimal_value_panics. Qed.
-Theorem C16_annotation_only_struct_diverges :
-  encode true ann_only_struct (GStruct [GSlice None]) TNoType = Panic.
-Proof. exact annotation_only_struct_diverges. Qed.
+(* T16.4 — the round-trip universe (Go/MarshalSpec.v rty): bool, the 11 integer kinds, float64, string, []byte,
+   big.Int, Decimal, Timestamp; slices, arrays, string-keyed maps of them; pointers to the non-nullable ones;
+   structs whose fields are exported, not embedded and renamed by a plain tag (distinct names) — nested to any
+   depth.  For EVERY value of EVERY such type: Unmarshal (Marshal v) = v. *)
+Theorem C16_roundtrip_rty : forall t g, rty t = true -> has_type g t = true -> roundtrip t g = Ok g.
+Proof. exact roundtrip_rty. Qed.
+(* the two halves.  RTe t (Go/RoundtripP.v): for every value g of t and enough fuel, encode_f yields calls cs
+   and cs parses (pvalue, whatever follows) to exactly [ion_of t g]; then decoding the image gives g *)
+Theorem C16_marshal_denotes_ion_of : forall t, rty t = true -> RTe t.
+Proof. exact encode_ion_of. Qed.
+Theorem C16_unmarshal_inverts_ion_of : forall t, rty t = true ->
+  forall g f, has_type g t = true -> (ty_depth t < f)%nat -> decto f t (zero t) false (ion_of t g) = Ok g.
+Proof. exact decode_ion_of. Qed.
+
+(* T16.5 — shapes that were refuted before the fixes *)
+Theorem C16_empty_slice_roundtrip :
+  roundtrip (TySlice (TyInt IInt)) (GSlice (Some [])) = Ok (GSlice (Some [])).
+Proof. exact roundtrip_empty_slice. Qed.
+Theorem C16_bigint_roundtrip : forall z, roundtrip TyBigInt (GBigInt z) = Ok (GBigInt z).
+Proof. exact roundtrip_bigint. Qed.
+Theorem C16_decimal_value_roundtrip : forall d, roundtrip TyDecimal (GDecimal d) = Ok (GDecimal d).
+Proof. exact roundtrip_decimal_value. Qed.
+Theorem C16_annotation_only_struct_is_error :
+  encode true ann_only_struct (GStruct [GSlice None]) TNoType = Err.
+Proof. exact annotation_only_struct_is_error. Qed.
+
+(* T16.6 — over ALL types the statement stays false (null is null): a pointer to a nil slice comes back nil *)
+Theorem C16_roundtrip_all_refuted_nested_nil : ~ C16_roundtrip_all_stmt.
+Proof. exact roundtrip_all_refuted_nested_nil. Qed.
 
 (* non-vacuity *)
 Example C16_ex1 : roundtrip (TyInt I64) (GInt (-9223372036854775808)) = Ok (GInt (-9223372036854775808)).
 Proof. vm_compute. reflexivity. Qed.
 Example C16_ex2 : roundtrip (TySlice (TyInt IInt)) (GSlice (Some [GInt 1; GInt 2])) = Ok (GSlice (Some [GInt 1; GInt 2])).
 Proof. vm_compute. reflexivity. Qed.
+Definition C16_ex_type : gty :=
+  TyStruct (FCons (s "Name"%string) true false (s "name"%string) TyString
+           (FCons (s "Tags"%string) true false [] (TyMap (TySlice (TyInt U16)))
+           (FCons (s "Next"%string) true false (s "next"%string)
+                  (TyPtr (TyStruct (FCons (s "B"%string) true false [] (TySlice (TyInt U8))
+                                   (FCons (s "A"%string) true false [] (TyArray 2 TyBigInt) FNil)))) FNil))).
+Example C16_ex4 : rty C16_ex_type = true.
+Proof. reflexivity. Qed.
+Example C16_ex5 : forall g, has_type g C16_ex_type = true -> roundtrip C16_ex_type g = Ok g.
+Proof. intros g H. exact (roundtrip_rty C16_ex_type g eq_refl H). Qed.
 Example C16_ex3 : encode true (TyMap (TyInt IInt)) (GMap (Some [(s "b"%string, GInt 2); (s "a"%string, GInt 1)])) TNoType =
   Ok [CBeginStruct; CFieldName (tok_text (s "a"%string)); CInt 1; CFieldName (tok_text (s "b"%string)); CInt 2; CEndStruct].
 Proof. vm_compute. reflexivity. Qed.
